@@ -12,6 +12,7 @@ import RigModel.Props.C01
 import RigModel.Props.C04
 import RigModel.Props.C05
 import RigModel.Props.C03
+import RigModel.Props.C02
 set_option linter.unusedSimpArgs false
 set_option linter.unusedVariables false
 
@@ -410,5 +411,52 @@ theorem forall₂_keys {R : ANet → PNet → Prop} (hR : ∀ n q, R n q → q.k
     have := hp.1 n' hn'
     rw [(hR _ _ h).1, (hR _ _ h).2, (hR _ _ hr').1, (hR _ _ hr').2]
     exact this
+
+/-! ### the placers' well-formedness from the domain -/
+
+theorem original02 (pb : Problem) : Rig.C02.Original (vr02 pb) (cs02 pb) := by
+  refine ⟨fun v hv => ?_, fun c hc => ?_⟩
+  · simp only [Rig.C02.keys, vr02, List.map_map, List.mem_map, Function.comp] at hv
+    obtain ⟨q, _, rfl⟩ := hv
+    trivial
+  · simp only [cs02, List.mem_map] at hc
+    obtain ⟨pc, _, rfl⟩ := hc
+    cases pc with
+    | loc v c => trivial
+    | same vs =>
+      intro v hv
+      simp only [List.mem_map] at hv
+      obtain ⟨n, _, rfl⟩ := hv
+      trivial
+    | reserve r s a => trivial
+    | align r a => trivial
+    | endpoint v r => trivial
+
+theorem dem_resVec_nonneg (nres : Nat) (rs : List (Nat × Int)) (h : ∀ rd ∈ rs, 0 ≤ rd.2) (i : Nat) :
+    0 ≤ Rig.C02.dem (resVec nres rs) i := by
+  simp only [Rig.C02.dem, resVec, List.getD_eq_getElem?_getD, List.getElem?_map]
+  cases hx : (List.range nres)[i]? with
+  | none => simp
+  | some j =>
+    simp only [Option.map_some, Option.getD_some]
+    cases hl : rs.lookup j with
+    | none => simp
+    | some x => simpa using h _ (Rig.C05.mem_of_lookup hl)
+
+/-- the C02 well-formedness of the bridged problem follows from the domain (and non-negative chip resources) -/
+theorem wf02 {pb : Problem} (dom : Domain pb) (hc : Rig.C02.NonNegCap pb.m2) :
+    Rig.C02.WF (vr02 pb) (cs02 pb) pb.m2 where
+  nodup := by
+    have : Rig.C02.keys (vr02 pb) = (pb.vr.map (·.1)).map Rig.C02.Vtx.o := by
+      simp [Rig.C02.keys, vr02, List.map_map, Function.comp_def]
+    rw [this]
+    exact List.Nodup.map (fun a b h => by injection h) dom.vrNodup
+  original := original02 pb
+  nonnegVR := by
+    intro v d h i
+    simp only [vr02, List.mem_map, Prod.mk.injEq] at h
+    obtain ⟨q, hq, _, rfl⟩ := h
+    exact dem_resVec_nonneg _ _ (dom.demandNonneg q hq) i
+  nonnegCap := hc
 
 end Rig.C01Pipe.L
